@@ -152,6 +152,18 @@ class RefSolver(object):
         self.counts[name] = self.counts.get(name, 0) + 1
         # ---- injected faults (decided by the profile drawn at run start)
         pf = self.profile
+        nth = self.counts[name]
+        dbn = pf.get("die_before_name")
+        if dbn and dbn[0] == name and dbn[1] == nth:
+            self._fire("die_before_reply")
+            self.dead = True
+            return None
+        ean = pf.get("error_at_name")
+        if ean and ean[0] == name and ean[1] == nth:
+            self._fire("error_reply")
+            entry["reply"] = '(error "injected failure")'
+            entry["injected"] = True
+            return entry["reply"]
         if pf.get("die_before_cmd") == self.cmd_no:
             self._fire("die_before_reply")
             self.dead = True
